@@ -11,7 +11,8 @@ import PycsepVerif.Properties.C03
 * The quadtree versions of the marginal and occupancy statements.
 * `gcall` / `runCalls` (`Model/GriddingSeq.lean`): explicit bins always win and leave the region as it is; whatever calls were
   made before, a region-bound call grids against the bins bound to the region; the only call that changes the region is
-  `magnitude_counts()` on a region object without a `magnitudes` attribute, which installs the default bins.
+  `magnitude_counts()` on a region object that carries no bins (attribute missing or None), which installs the default bins
+  (behaviour after fix D41; `finding_d41_unrepaired` describes the code before it).
 * `expectedCounts`: the array `CatalogForecast.get_expected_rates` divides by `n_cat` is the count matrix of the concatenation
   of all catalogs, or the call is rejected because some catalog holds an event outside the region / below the lowest edge.
 -/
@@ -103,12 +104,13 @@ theorem occupancy_quad (ncell : Nat) (locs : List (Option Nat)) :
 
 /-! ### which bins a call uses, over sequences of calls on one catalog / region object -/
 
-/-- the region object changes in exactly one situation: `magnitude_counts()` without bins on a region object that has no
-    `magnitudes` attribute installs the default bins -/
+/-- the region object changes in exactly one situation: `magnitude_counts()` without bins on a region object that carries
+    no bins (attribute missing or None) installs the default bins -/
 theorem gcall_state (quad : Bool) (ncell : Nat) (dflt : List Rat) (evs : Located) (b : Bound) (c : GCall) :
     (gcall quad ncell dflt evs b c).2 =
       match b, c with
       | .absent, .mc none _ => .bins dflt
+      | .unset, .mc none _ => .bins dflt
       | _, _ => b := by
   cases c with
   | mc ex rb =>
@@ -146,46 +148,59 @@ theorem calls_history_independent (quad : Bool) (ncell : Nat) (dflt : List Rat) 
       Prod.ext rfl hs]
     simp only [ih]
 
-/-- the same for a region whose `magnitudes` is None and for a catalog without region -/
-theorem calls_history_independent_unset (quad : Bool) (ncell : Nat) (dflt : List Rat) (evs : Located) (b : Bound)
-    (hb : b = .unset ∨ b = .noRegion) (calls : List GCall) :
-    runCalls quad ncell dflt evs b calls = (calls.map (fun c => (gcall quad ncell dflt evs b c).1), b) := by
+/-- the same for a catalog without region: nothing can be written anywhere -/
+theorem calls_history_independent_noregion (quad : Bool) (ncell : Nat) (dflt : List Rat) (evs : Located)
+    (calls : List GCall) :
+    runCalls quad ncell dflt evs .noRegion calls
+      = (calls.map (fun c => (gcall quad ncell dflt evs .noRegion c).1), .noRegion) := by
   induction calls with
   | nil => rfl
   | cons c cs ih =>
-    have hs := gcall_state quad ncell dflt evs b c
-    have hs' : (gcall quad ncell dflt evs b c).2 = b := by
-      rcases hb with rfl | rfl <;> simpa using hs
+    have hs := gcall_state quad ncell dflt evs .noRegion c
+    simp only at hs
     simp only [runCalls, List.map_cons]
-    rw [show gcall quad ncell dflt evs b c = ((gcall quad ncell dflt evs b c).1, b) from Prod.ext rfl hs']
+    rw [show gcall quad ncell dflt evs .noRegion c = ((gcall quad ncell dflt evs .noRegion c).1, .noRegion) from
+      Prod.ext rfl hs]
     simp only [ih]
 
-/-- the default-bins side effect: after `magnitude_counts()` on a region object without the attribute, the sequence goes on
-    exactly as on a region bound to the default bins — and the call itself counted on the default bins -/
-theorem default_bins_installed (quad : Bool) (ncell : Nat) (dflt : List Rat) (evs : Located) (rb : Bool) (calls : List GCall) :
-    runCalls quad ncell dflt evs .absent (.mc none rb :: calls)
+/-- the default-bins side effect: after `magnitude_counts()` on a region object that carries no bins (attribute missing, or
+    None — since D41), the sequence goes on exactly as on a region bound to the default bins — and the call itself counted
+    on the default bins -/
+theorem default_bins_installed (quad : Bool) (ncell : Nat) (dflt : List Rat) (evs : Located) (rb : Bool) (calls : List GCall)
+    (b : Bound) (hb : b = .absent ∨ b = .unset) :
+    runCalls quad ncell dflt evs b (.mc none rb :: calls)
       = (((gcall quad ncell dflt evs (.bins dflt) (.mc none rb)).1
             :: calls.map (fun c => (gcall quad ncell dflt evs (.bins dflt) c).1)), .bins dflt) := by
   simp only [runCalls]
-  have h1 : gcall quad ncell dflt evs .absent (.mc none rb)
+  have h1 : gcall quad ncell dflt evs b (.mc none rb)
       = ((gcall quad ncell dflt evs (.bins dflt) (.mc none rb)).1, .bins dflt) := by
-    simp [gcall, resolveMc]
+    rcases hb with rfl | rfl <;> simp [gcall, resolveMc]
   rw [h1]
   simp only [calls_history_independent]
 
+/-- since D41 `magnitude_counts()` without bins never fails for lack of bins: whatever the region state it counts on the
+    bound bins or on the default bins (the histogram of the exact default-bin lookup) -/
+theorem mc_default_everywhere (quad : Bool) (ncell : Nat) (dflt : List Rat) (evs : Located) (b : Bound) :
+    (gcall quad ncell dflt evs b (.mc none false)).1 =
+      .vec (let edges := (match b with | .bins e => e | _ => dflt)
+            magnitudeCounts edges.length ((toEvs edges evs).map (·.bin))) := by
+  cases b <;> simp [gcall, resolveMc]
+
+/-- the code before D41 failed in exactly the two states the fix repaired, and agreed with the repaired code otherwise -/
+theorem finding_d41_unrepaired (dflt : List Rat) (ex : Option (List Rat)) (b : Bound) :
+    ((∃ err, resolveMcD41 dflt ex b = .error err) ↔ (ex = none ∧ (b = .unset ∨ b = .noRegion))) ∧
+    (∀ r, resolveMcD41 dflt ex b = .ok r → r = resolveMc dflt ex b) := by
+  cases ex <;> cases b <;> simp [resolveMcD41, resolveMc]
+
 /-- `retbins=True` returns the bins the call used together with the same counts -/
-theorem retbins_same_counts (quad : Bool) (ncell : Nat) (dflt : List Rat) (evs : Located) (b : Bound) (ex : Option (List Rat))
-    (v : List Nat) (h : (gcall quad ncell dflt evs b (.mc ex false)).1 = .vec v) :
-    ∃ edges, (gcall quad ncell dflt evs b (.mc ex true)).1 = .vecBins edges v ∧
-      (∃ b', resolveMc dflt ex b = .ok (edges, b')) ∧ v.length = edges.length := by
-  cases hr : resolveMc dflt ex b with
-  | error e => simp [gcall, hr] at h
-  | ok p =>
-    obtain ⟨edges, b'⟩ := p
-    simp only [gcall, hr, Bool.false_eq_true, if_false, GOut.vec.injEq] at h
-    refine ⟨edges, ?_, ⟨b', rfl⟩, ?_⟩
-    · simp [gcall, hr, h]
-    · rw [← h, magnitudeCounts_eq]; simp [countVec]
+theorem retbins_same_counts (quad : Bool) (ncell : Nat) (dflt : List Rat) (evs : Located) (b : Bound) (ex : Option (List Rat)) :
+    ∃ v, (gcall quad ncell dflt evs b (.mc ex false)).1 = .vec v ∧
+      (gcall quad ncell dflt evs b (.mc ex true)).1 = .vecBins (resolveMc dflt ex b).1 v ∧
+      v.length = (resolveMc dflt ex b).1.length := by
+  refine ⟨magnitudeCounts (resolveMc dflt ex b).1.length ((toEvs (resolveMc dflt ex b).1 evs).map (·.bin)), ?_, ?_, ?_⟩
+  · simp [gcall]
+  · simp [gcall]
+  · rw [magnitudeCounts_eq]; simp [countVec]
 
 /-- a region-bound magnitude histogram is the count vector of the exact bins: bin k holds the events with
     `edge_k ≤ m < edge_(k+1)` (top bin open) — the call-level form of `magCount_eq_filter` -/
@@ -290,6 +305,11 @@ example : (gcall false 2 [5/2, 3] exLoc (.bins [4, 5, 6]) (.smc none)).1 = .err 
 example : (gcall true 2 [5/2, 3] exLoc (.bins [4, 5, 6]) (.smc (some [3, 6]))).1 = .mat [[1, 1], [2, 0]] := by decide +kernel
 example : runCalls false 2 [5/2, 3] exLoc .absent [.smc none, .mc none false, .smc none]
     = ([.err .config, .vec [0, 4], .mat [[0, 2], [0, 2]]], .bins [5/2, 3]) := by decide +kernel
+example : runCalls false 2 [5/2, 3] exLoc .unset [.smc none, .mc none true, .smc none]
+    = ([.err .config, .vecBins [5/2, 3] [0, 4], .mat [[0, 2], [0, 2]]], .bins [5/2, 3]) := by decide +kernel
+example : runCalls false 2 [5/2, 3] exLoc .noRegion [.mc none false, .smc none]
+    = ([.vec [0, 4], .err .config], .noRegion) := by decide +kernel
+example : resolveMcD41 [5/2, 3] none .unset = .error .config := rfl
 example : ([4, 5, 6] : List Rat)[1]? = some 5 := by decide +kernel
 example : expectedCounts false 2 2 [⟨some 0, some 1⟩, ⟨some 1, some 0⟩] [[⟨some 0, some 1⟩], []] = .ok [[0, 2], [1, 0]] := by
   decide +kernel
